@@ -330,6 +330,14 @@ func IsValidVoteproofsWithManifest(vps [2]Voteproof, manifest Manifest) error {
 		return e.Errorf("point does not match")
 	}
 
+	// NOTE the block is the one the ACCEPT majority agreed
+	switch m := avp.BallotMajority(); {
+	case m == nil:
+		return e.Errorf("empty majority of accept voteproof")
+	case !m.NewBlock().Equal(manifest.Hash()):
+		return e.Errorf("new block of accept voteproof does not match")
+	}
+
 	return nil
 }
 
